@@ -278,5 +278,14 @@ Proof. vm_compute. reflexivity. Qed.
 Example ex_image_bincode_failure : bin_to_image (compress [1; 2; 3]) = Ok None.
 Proof. vm_compute. reflexivity. Qed.
 
-Example ex_image_decompress_panic : bin_to_image [0x10; 97; 2; 0] = Panic.
+Example ex_image_decompress_failure : bin_to_image [0x10; 97; 2; 0] = Ok None.
 Proof. vm_compute. reflexivity. Qed.
+
+(* a downloaded byte string, whatever it is, never makes the decoder panic (since the repair 1d88107) *)
+Theorem bin_to_image_never_panics : forall bs, bin_to_image bs <> Panic.
+Proof.
+  intros bs. unfold bin_to_image. destruct (decompress bs) as [e|raw]; [discriminate|].
+  destruct (dec ImageData_ty raw) as [[v rest]|]; [|discriminate].
+  destruct (image_of_data v); discriminate.
+Qed.
+Print Assumptions bin_to_image_never_panics.
